@@ -209,3 +209,17 @@ theorem eraseW_noAlias (w : World) (h : NoAlias w) :
   · simp [eraseW]
 
 end RbM
+
+namespace RbM
+
+/-- `Used()` = `len(storage) - len(gaps)`: on a non-empty arena it is the number of live nodes of all trees plus the
+reserved slot -/
+theorem used_count (w : World) (h : NoAlias w) (hne : w.size ≠ 0) :
+    w.size - w.gaps.length = (ids w.focus).length + w.others.length + 1 := by
+  obtain ⟨_, _, h3⟩ := h
+  rcases h3 with h0 | h3
+  · exact absurd h0 hne
+  · simp only [allIds, List.length_append] at h3
+    omega
+
+end RbM
